@@ -4,7 +4,6 @@ import struct, string
 from vlib.engine import Prop, Failure, SAN_FLAGS
 from translate import c15_abc_tables
 
-KNOWN_RB = "C15:esl_ct2wuss:rb-index-past-25"
 RB_WITNESS = "<ABCDEFGHIJKLMNOPQRSTUVWXYZ>:<A>aabcdefghijklmnopqrstuvwxyz"
 
 
@@ -190,7 +189,7 @@ class C15(Prop):
         free = [i for i in range(n) if s[i] not in OPEN + CLOSE]
         for _ in range(pk_letters):
             if len(free) < 2: break
-            L = rng.choice(string.ascii_uppercase[:rng.choice([2, 3, 5, 9])]) if rng.random() < 0.97 else rng.choice(string.ascii_uppercase)
+            L = rng.choice(string.ascii_uppercase[:rng.choice([2, 3, 5, 26])])
             m = rng.randrange(1, min(4, len(free) // 2) + 1)
             pos = sorted(rng.sample(free, 2 * m))
             # a Dyck word over this letter: either AA..aa or AaAa..
@@ -340,7 +339,14 @@ class C15(Prop):
         ops = []
         for _ in range(rng.randrange(1, 6)):
             n = rng.choice([0, 1, 2, 5, 20, rng.randrange(0, 100), rng.randrange(0, maxlen + 1)])
-            s = self.rand_struct(rng, n, pk_letters=rng.choice([0, 1, 3, 8, 12]), p_pair=rng.choice([0.3, 0.7, 0.9]))
+            s = self.rand_struct(rng, n, pk_letters=rng.choice([0, 1, 3, 8, 30]), p_pair=rng.choice([0.3, 0.7, 0.9]))
+            if rng.random() < 0.06:      # families that exhaust the pseudoknot letters of esl_ct2wuss (rb[] bounds)
+                k = rng.choice([24, 25, 26, 27, 28, 30])
+                if rng.random() < 0.5:
+                    L = rng.choice("ABZ"); s = ("<" + L + ">" + rng.choice(["", ":", "__"])) * k + L.lower() * k
+                else:
+                    ls = string.ascii_uppercase[:min(k, 26)]
+                    s = "<" + ls + ">" + ":" * rng.randrange(3) + "<A>a" * rng.randrange(1, 3) + ls.lower()
             if rng.random() < 0.3: s = self.break_struct(rng, s)
             if rng.random() < 0.05: s = "".join(rng.choice("<>()[]{}AaBbCc:,_-.~") for _ in range(n))
             r = rng.random()
@@ -362,7 +368,11 @@ class C15(Prop):
 
     def corpus(self, ctx):
         c = [
-            {"name": "rb-witness", "ops": ["roundtrip ss=" + hx(RB_WITNESS)], "sticky": 0, "known_key": KNOWN_RB},
+            # regression: once read rb[26] (fixed by c4d52a3); must be eslEINVAL "not enough letters", never a fault
+            {"name": "rb-witness", "ops": ["roundtrip ss=" + hx(RB_WITNESS), "rbbss ss=%s mask=%s" % (hx(RB_WITNESS), "1" * len(RB_WITNESS)),
+                                           "roundtrip ss=" + hx("<A>" * 27 + "a" * 27), "roundtrip ss=" + hx("<A>" * 26 + "a" * 26)], "sticky": 0},
+            {"name": "rb-witness-msa", "ops": ["new nseq=1 alen=59", "sq i=0 seq=" + hx("ACGU" * 14 + "ACG"), "col ss_cons=" + hx(RB_WITNESS), "digitize abc=rna",
+                                               "colsubset mask=1 cyc=1", "dump", "validate"], "sticky": 4},
             {"name": "rnasep", "ops": ["roundtrip ss=" + hx("{{{{{{{{{{{{{{{{{{,<<<<<<<<<<<<<-<<<<<____>>>>>>>>>->>>>>>>>>,,,,AAA-AAAAA[[[[---BBBB-[[[[[<<<<<_____>>>>><<<<____>>>->(((---(((((,,,,,,,,,,,,<<<<<--<<<<<<<<____>>>>>->>>>>>-->>,,,,,,,<<<<<<_____>>>>>>,,,,,,,,,<<<<__>>>>,,,,<<<<<<<<____>>>>>>>>,,,,,,,)))))--))))]]]]]]]]]]]],,,<<<<------<<<<<<----<<<<<_bbbb>>>>>>>>>>>----->>>>,,,,,,<<<<<<<<____>>>>>>>>,,,,aaaaaaaa----------}}}}}}}}}}}}}}}}}}:::")], "sticky": 0},
             {"name": "pk-nested-letters", "ops": ["roundtrip ss=" + hx("<A>:<A>:<A>aaa"), "roundtrip ss=" + hx("<<A>>a<B>b"), "roundtrip ss=" + hx("AaAa"), "roundtrip ss=" + hx("<(>)"), "roundtrip ss=" + hx("<a>A")], "sticky": 0},
         ]
@@ -386,8 +396,6 @@ class C15(Prop):
         ops = case["ops"]
         for l in out:
             if l.startswith(("fault ", "atexit ")):
-                if "index_26_out_of_bounds" in l or "index_2" in l and "int_[26]" in l:
-                    return Failure("fault", "esl_ct2wuss/esl_ct2simplewuss index rb[] past 25: " + l, key=KNOWN_RB)
                 return Failure("fault", "implementation died: " + l)
         if len(out) != len(ops):
             return Failure("monitor", "harness answered %d lines for %d ops" % (len(out), len(ops)))
@@ -427,6 +435,11 @@ class C15(Prop):
                 if f: return f
         return None
 
+    def needs_many_letters(self, ss):
+        """True when the structure has at least 26 pseudoknotted pairs (the only way esl_ct2wuss can run out of letters)"""
+        p = wuss_pairs(ss) or set()
+        return sum(1 for (i, j) in p if any(a < i < b < j or i < a < j < b for (a, b) in p)) >= 26
+
     def check_wuss(self, name, kv, l):
         ss = unhx(kv.get("ss", "~"))
         if name in ("wuss2ct", "roundtrip"):
@@ -451,6 +464,8 @@ class C15(Prop):
                 if len(parts) >= 3 and parts[2] == "ok":
                     if len(cts) < 2 or pairs_of(cts[1]) != spec:
                         return Failure("monitor", "wuss->ct->wuss->ct does not preserve the set of pairs of %r: %s" % (ss, l[-200:]))
+                elif parts[2:4] == ["einval", "exception"] and self.needs_many_letters(ss):
+                    return None      # documented: a pair table whose greedy lettering needs more than A..Z is refused with eslEINVAL
                 else:
                     return Failure("monitor", "esl_ct2wuss fails on the pair table of a balanced WUSS string %r: %s" % (ss, " ".join(parts[2:4])))
         elif name == "rbbss":
@@ -458,6 +473,7 @@ class C15(Prop):
             mask = kv["mask"] if kv["mask"] != "-" else ""
             parts = l.split()
             if spec is None: return None if parts[0] == "esyntax" else Failure("monitor", "RemoveBrokenBasepairsFromSS accepted bad SS %r" % ss)
+            if parts[0:2] == ["einval", "exception"] and self.needs_many_letters(ss): return None     # documented limit of esl_ct2wuss (A..Z)
             if parts[0] != "ok": return Failure("monitor", "RemoveBrokenBasepairsFromSS failed on balanced SS %r: %s" % (ss, l[:60]))
             got = wuss_pairs(unhx(parts[-1][3:]))
             want = set((i, j) for i, j in spec if mask[i] == "1" and mask[j] == "1")
